@@ -3,9 +3,11 @@ package hlib
 import (
 	"fmt"
 	"math"
+	"os"
 	"reflect"
 	"strconv"
 	"strings"
+	"unsafe"
 )
 
 // Values travel as prefix tokens:  N (nil pointer) | I<bits> (numeric leaf as
@@ -107,10 +109,57 @@ func Build(t *Toks, v reflect.Value) {
 	}
 }
 
+// Junk, when set (environment VERIF_JUNK=1), makes Build fill every excluded
+// field with non-zero data, so that "excluded fields have no effect on the
+// file" is exercised with values in them.
+var Junk = os.Getenv("VERIF_JUNK") == "1"
+
+func fillJunk(v reflect.Value, depth int) {
+	if !v.CanSet() {
+		if !v.CanAddr() {
+			return
+		}
+		v = reflect.NewAt(v.Type(), unsafe.Pointer(v.UnsafeAddr())).Elem()
+	}
+	switch v.Kind() {
+	case reflect.Int, reflect.Int8, reflect.Int16, reflect.Int32, reflect.Int64:
+		v.SetInt(77)
+	case reflect.Uint, reflect.Uint8, reflect.Uint16, reflect.Uint32, reflect.Uint64:
+		v.SetUint(78)
+	case reflect.Float32, reflect.Float64:
+		v.SetFloat(7.5)
+	case reflect.Bool:
+		v.SetBool(true)
+	case reflect.String:
+		v.SetString("junk")
+	case reflect.Ptr:
+		if depth < 3 {
+			p := reflect.New(v.Type().Elem())
+			fillJunk(p.Elem(), depth+1)
+			v.Set(p)
+		}
+	case reflect.Slice:
+		if depth < 3 {
+			s := reflect.MakeSlice(v.Type(), 1, 1)
+			fillJunk(s.Index(0), depth+1)
+			v.Set(s)
+		}
+	case reflect.Struct:
+		for i := 0; i < v.NumField(); i++ {
+			fillJunk(v.Field(i), depth+1)
+		}
+	case reflect.Map:
+		v.Set(reflect.MakeMap(v.Type()))
+	}
+}
+
 func buildFields(t *Toks, v reflect.Value) {
 	for i := 0; i < v.NumField(); i++ {
 		sf := v.Type().Field(i)
 		if excluded(sf) {
+			if Junk {
+				fillJunk(v.Field(i), 0)
+			}
 			continue
 		}
 		if sf.Anonymous && sf.Type.Kind() == reflect.Struct {
